@@ -311,8 +311,24 @@ func runReplayFS(rf *ReplayFile) int {
 	return 0
 }
 
-// modelJobs: behaviours generated by TLC from the bounded operational model (added later).
-var modelJobs = func(cx *CheckCtx, id string) []Job { return nil }
+// modelJobs: behaviours generated by TLC from the bounded instances of the operational model.
+var modelFor = map[string][]string{
+	"C02": {"Stage"}, "C04": {"Stage"}, "C05": {"Stage"}, "C06": {"Stage"}, "C07": {"Stage"}, "C09": {"Stage"}, "C13": {"Stage"}, "C17": {"Stage"},
+	"C03": {"Refs", "Stage"}, "C08": {"Refs", "Stage"}, "C10": {"Refs"}, "C11": {"Refs"}, "C14": {"Refs"}, "C18": {"Refs", "Stage"}, "C01": {"Stage"},
+}
+
+func modelJobs(cx *CheckCtx, id string) []Job {
+	var jobs []Job
+	for _, name := range modelFor[id] {
+		if cx.Tier == "thorough" {
+			if _, err := os.Stat(filepath.Join(specDir(), "MC_"+name+"Deep.cfg")); err == nil {
+				name += "Deep"
+			}
+		}
+		jobs = append(jobs, tourJobs(cx, name, obsFor(id), 0)...)
+	}
+	return jobs
+}
 
 func fsPlan(id string) func(cx *CheckCtx) int {
 	return func(cx *CheckCtx) int {
